@@ -3,7 +3,7 @@ import gen
 
 ID = "C01"
 LEVEL = "proof"
-MODULES = ["H3Proofs.Props.C01", "H3Proofs.Props.C01Lnz", "H3Proofs.Props.C01Rot", "H3Proofs.Props.C04Gen", "H3Proofs.Props.C05Gen", "H3Proofs.Props.C05Valid2", "H3Proofs.Props.C02Valid", "H3Proofs.Props.C09Valid", "H3Proofs.Props.C10Valid", "H3Proofs.Props.C05All", "H3Proofs.Props.C01Api"]
+MODULES = ["H3Proofs.Props.C01", "H3Proofs.Props.C01Lnz", "H3Proofs.Props.C01Rot", "H3Proofs.Props.C04Gen", "H3Proofs.Props.C05Gen", "H3Proofs.Props.C05Valid2", "H3Proofs.Props.C02Valid", "H3Proofs.Props.C09Valid", "H3Proofs.Props.C10Valid", "H3Proofs.Props.C05All", "H3Proofs.Props.C01Api", "H3Proofs.Props.C01Poly"]
 THEOREMS = ["H3.C01.isValidCell_eq_layout", "H3.C01.isValidCell_defined_all", "H3.C01.pentBC_eq_table",
             "H3.C01L.h3LeadingNonZeroDigit_defined_all", "H3.C01L.h3LeadingNonZeroDigit_eq_model",
             "H3.C01R.h3Rotate60ccw_defined_all", "H3.C01R.h3Rotate60cw_defined_all",
@@ -18,13 +18,16 @@ THEOREMS = ["H3.C01.isValidCell_eq_layout", "H3.C01.isValidCell_defined_all", "H
             "H3.C01A.getters_defined_all", "H3.C01A.counts",
             "H3.C05V.h3NeighborRotations_layout", "H3.C05V.walk_valid", "H3.C02V.faceIjkToH3_valid",
             "H3.C09V.localIjToCell_valid", "H3.C09V.gridPathCells_valid", "H3.C10V.edge_cells_valid",
-            "H3.C05R.gridDiskDistancesUnsafe_valid", "H3.C05R.gridRingUnsafe_valid", "H3.C05All.gridDiskDistances_valid"]
+            "H3.C05R.gridDiskDistancesUnsafe_valid", "H3.C05R.gridRingUnsafe_valid", "H3.C05All.gridDiskDistances_valid",
+            "H3.C01P.polyfill_valid", "H3.C01P.polyfill_no_null", "H3.C01P.polyExpand_subset"]
 BV_DECIDE_THEOREMS = ["H3.C01.isValidCell_eq_layout", "H3.C01.isValidCell_defined_all"]
-NOT_PROVED = ["closure clause: a theorem for every cell-returning function of the model except the polygon fills and "
-              "cellsToLinkedMultiPolygon (hierarchy: C04/C13 modules; neighbour steps, safe disk, ring walks, gridDisk: C05Valid2 / "
+NOT_PROVED = ["closure clause: a theorem for every cell-returning function of the model except the legacy polygon fill "
+              "(polygonToCells: edge tracing + flood fill, not modelled; cellsToLinkedMultiPolygon returns no cells) (hierarchy: C04/C13 modules; neighbour steps, safe disk, ring walks, gridDisk: C05Valid2 / "
               "C05Ring / C05All; compactCells / uncompactCells: C06 modules; _faceIjkToH3, i.e. whatever latLngToCell returns: "
-              "C02Valid; localIjToCell and every cell of gridPathCells: C09Valid; edge origin / destination: C10Valid); the polygon "
-              "fills return cells of the resolution's enumeration (C07Iter.polyfill_mem); in addition the closure sweep passes "
+              "C02Valid; localIjToCell and every cell of gridPathCells: C09Valid; edge origin / destination: C10Valid); "
+              "polygonToCellsExperimental: every output value is accepted by the translated isValidCell, has the target "
+              "resolution and is never H3_NULL, relative to the traversal model (C01Poly.polyfill_valid / polyfill_no_null, from "
+              "C07Iter.polyfill_mem and C03Count.mem_cellsEnum_iff); in addition the closure sweep passes "
               "every cell those API calls return on the real library through the documented layout (runtime monitor)"]
 ASSUMPTIONS = ["Gen.Bits.isValidCell is the c2lean translation of the C text (validated differentially here, "
                "helper by helper)",
